@@ -174,6 +174,10 @@ def run(rep, pdb, tier):
     qvar = tt[2][1] if tt is not None and tt[0] == "call" and str(tt[1]).endswith("::Ok") and tt[2][0] == "tup" and len(tt[2]) == 3 else None
     okret = qvar is not None and tt[2][2] == rvar
     rep.add("exit", "the loop condition is `r != 0 && deg r >= deg v` and the result is Ok((q, r)) in that order", okx and okret, w, "cond ok=%s returns (q, r)=%s" % (okx, okret))
+    if w.get("k") == "While":
+        brks = [x for x in walk(w["body"]) if x.get("k") == "Break" and not any(a.get("k") in ("For", "While", "Loop") and a is not w and any(z is w for z in ancestors(a)) for a in ancestors(x))]
+        rep.add("exit/no-other", "the division loop ends only through its condition (or the iteration cap): a `break` on a value test (`the new term is rounding noise`) leaves deg r >= deg v",
+                not brks, brks[0] if brks else w, "breaks inside the loop: %d" % len(brks))
     if rvar is None or qvar is None:
         return {}
     # ---- term
